@@ -9,7 +9,7 @@ from hypothesis import strategies as st
 from vf import gwl
 from vf.core import Obs
 from vf.lab import LETTERS, lab_spec, real_idx
-from vf.prog import World, quantize, execute, expect_sequential, expect_transfer, flat_pairs, label_st, op_direct, op_distribute, op_transfer, resolve, trough_indices, vs_ok
+from vf.prog import ops_list, World, quantize, execute, expect_sequential, expect_transfer, flat_pairs, label_st, op_direct, op_distribute, op_transfer, resolve, trough_indices, vs_ok
 
 PID = "C01"
 RULE = (
@@ -72,7 +72,7 @@ def _case(draw, tier, stratum):
         "device": device,
         "q": q,
         "M": draw(st.sampled_from(MS)),
-        "ops": draw(st.lists(ops, min_size=1, max_size=10 if tier == "quick" else 20)),
+        "ops": draw(ops_list(ops, 1, 10 if tier == "quick" else 20)),
     }
 
 
